@@ -453,7 +453,7 @@ class Type3Tag(nfc.tag.Tag):
         # If required, we will also overwrite the memory with the
         # 8-bit integer provided. This could take a while.
         if wipe is not None:
-            data = bytearray([wipe]) * 16
+            data = bytearray([wipe & 0xFF]) * 16
             while nmaxb > 0:
                 self.write_to_ndef_service(data, nmaxb)
                 nmaxb = nmaxb - 1
